@@ -55,6 +55,14 @@ def selected_output(rng, n, elems=("Na", "Cl", "Ca", "K"), with_file=False, newl
         L.append(" -equilibrium_phases " + " ".join(rng.sample(PHASES[:5], rng.randint(1, 2))))
     if rng.random() < 0.15:
         L.append(" -gases CO2(g)")
+    if newline_variants:
+        # extended option sets (C05/C09 only): listed components that are present in / absent from the reactant in use, in mixed order
+        if rng.random() < 0.3:
+            L.append(" -solid_solutions " + " ".join(rng.sample(["Aragonite", "Calcite", "Strontianite", "Barite"], rng.randint(2, 4))))
+        if rng.random() < 0.3:
+            L.append(" -kinetic_reactants " + " ".join(rng.sample(["Halite", "Calcite", "Quartz"], rng.randint(1, 3))))
+        if rng.random() < 0.2:
+            L.append(" -gases " + " ".join(rng.sample(["CO2(g)", "N2(g)", "O2(g)", "CH4(g)"], rng.randint(2, 3))))
     return L
 
 
@@ -132,7 +140,9 @@ def rich_step(rng, have):
                 "RATES", " Halite", " -start", " 10 SAVE PARM(1) * TIME", " -end", "INCREMENTAL_REACTIONS %s" % rng.choice(["true", "false"])], set()
     if k < 0.88:
         return ["USE solution %d" % n, "GAS_PHASE 1", " -fixed_pressure", " -pressure 1", " CO2(g) 0.01", " N2(g) 0.99"], set()
-    return ["USE solution %d" % n, "EXCHANGE 1", " X 0.01", " -equilibrate %d" % n], set()
+    if k < 0.94:
+        return ["USE solution %d" % n, "EXCHANGE 1", " X 0.01", " -equilibrate %d" % n], set()
+    return ["USE solution %d" % n, "SOLID_SOLUTIONS 1", " CaSrCO3", " -comp Aragonite 0.001", " -comp Strontianite 0.0001"], set()
 
 
 def multi_sim_input(rng, nsims=None, user_numbers=None, allow_redefine=True, no_simno=False, rich=False, with_file=False, print_toggle=False, newline_variants=False):
@@ -192,4 +202,16 @@ def multi_sim_input(rng, nsims=None, user_numbers=None, allow_redefine=True, no_
             L += ["TITLE sim %d of generated input" % s]
         L.append("END")
         sims.append("\n".join(L) + "\n")
+    if newline_variants and sols:
+        # the extended option lists need the matching reactant IN USE in some reaction step (components present and absent, in mixed order)
+        text = "".join(sims)
+        extra = []
+        if "-solid_solutions" in text:
+            extra.append("USE solution %d\nSOLID_SOLUTIONS 1\n CaSrCO3\n -comp Aragonite 0.001\n -comp Strontianite 0.0001\nEND\n" % sols[0])
+        if "-kinetic_reactants" in text:
+            extra.append("USE solution %d\nKINETICS 1\n Halite\n -formula NaCl 1\n -m0 0.001\n -parms 1e-6\n -steps 100\nRATES\n Halite\n -start\n 10 SAVE PARM(1) * TIME\n -end\nEND\n" % sols[0])
+        if text.count("(g)") > 1 and "-gases" in text:
+            extra.append("USE solution %d\nGAS_PHASE 1\n -fixed_volume\n -volume 1\n CO2(g) 0.01\n N2(g) 0.5\nEND\n" % sols[0])
+        sims += extra
+        info["nsims"] = len(sims)
     return "".join(sims), dict(info, sims=sims)
